@@ -318,3 +318,9 @@ func init() {
 	prop("C02", "C02-R6")
 	prop("C10", "C02-R6")
 }
+
+func init() {
+	prop("C10", "C10-R5")
+	prop("C10", "C10-R6")
+	prop("C09", "C10-R6")
+}
